@@ -221,6 +221,8 @@ class Ctx:
         deps = [srcp, hh] + [os.path.join(VERIF, "harness", f) for f in os.listdir(os.path.join(VERIF, "harness")) if f.endswith(".hh")]
         key = file_hash(*deps, extra=" ".join(flags) + opt + str(c_iface) + REPO)
         name = out_name or os.path.splitext(src)[0]
+        # binaries of different trees (VERIF_REPO copies) must not evict each other
+        name = "%s-%s" % (name, hashlib.sha256(REPO.encode()).hexdigest()[:6])
         outp = os.path.join(BUILD, "%s-%s" % (name, key))
         if os.path.exists(outp):
             return outp
